@@ -2,7 +2,7 @@
    Statements only; every proof is [exact lemma].  valid_md is the calendar predicate
    (1<=m<=12, 1<=d<=DAYS_PER_MONTH[m]) over the tables generated from date.rs. *)
 From JV Require Import Bytes Tables U64Swar Scalar Date.
-From JV.proofs Require Import DateProofs.
+From JV.proofs Require Import DateProofs DateProofs2 SwarLanes DecimalProofs DateParse DateFast DateFmt DateLang.
 Open Scope Z_scope.
 
 (* to_binary / from_binary are mutually inverse for every date the binary format can express *)
@@ -21,3 +21,282 @@ Print Assumptions C13_datehour_bin_inverse.
 (* non-vacuity: a concrete date meets the hypotheses *)
 Example C13_nonvacuous : -5000 <= 1444 <= 32767 /\ valid_md 11 11 = true.
 Proof. split; [lia | reflexivity]. Qed.
+
+(* over the whole i32 range the four from_binary entry points never reach a panic site
+   (in particular never the `unreachable!()` arm of month_day_from_julian), and whatever they
+   accept re-encodes to the same day (Date: the hour s % 24 is dropped) / same day and hour *)
+Theorem C13_from_binary_total : forall s, in_i32 s = true ->
+  is_crash (date_from_binary s) = false /\ is_crash (datehour_from_binary s) = false /\
+  is_crash (date_from_binary_heuristic s) = false /\ is_crash (datehour_from_binary_heuristic s) = false /\
+  (forall r, date_from_binary s = Ok (Some r) -> date_to_binary r = Ok (s - Z.rem s 24)) /\
+  (forall r, datehour_from_binary s = Ok (Some r) -> datehour_to_binary r = Ok s).
+Proof. exact from_binary_total. Qed.
+Print Assumptions C13_from_binary_total.
+
+(* non-vacuity: 56379360 = 1436.1.1 (the crate's own doc example) is accepted; a negative multiple
+   of 24*365 is accepted too (year -5001) and still re-encodes to itself *)
+Example C13_from_binary_nonvacuous :
+  in_i32 56379360 = true /\ (exists r, date_from_binary 56379360 = Ok (Some r)) /\
+  (exists r, datehour_from_binary 56379371 = Ok (Some r)) /\
+  (exists r, date_from_binary (-8760) = Ok (Some r) /\ date_to_binary r = Ok (-8760)).
+Proof.
+  split; [vm_compute; reflexivity|]. split; [eexists; vm_compute; reflexivity|].
+  split; [eexists; vm_compute; reflexivity|].
+  exists (mkraw (-5001) 4224). split; vm_compute; reflexivity.
+Qed.
+
+(* add_days / days_until are inverse as long as the result stays out of the "negative year 0":
+   with D = date_days r (Date::days), the target day number D+n must be >= 0 (years 0..32767) or
+   <= -365 (years -32768..-1).  This covers "the computation stays on one side of year 0" and is
+   slightly more general (crossing is fine, landing in (-365,0) is not: the model reproduces the
+   documented inconsistency there, see the example).  The result is again a valid Date, its day
+   number is D+n, and days_until gives back n. *)
+Theorem C13_add_days_until : forall r n D,
+  is_date r -> date_days r = Ok D ->
+  0 <= D + n < 11960320 \/ -11960685 < D + n <= -365 ->
+  exists r', add_days r n = Ok r' /\ is_date r' /\ date_days r' = Ok (D + n) /\ days_until r r' = Ok n.
+Proof. exact add_days_until. Qed.
+Print Assumptions C13_add_days_until.
+
+(* every valid date has a day number (no panic), of the documented form *)
+Theorem C13_date_days_total : forall r, is_date r ->
+  exists D o, date_days r = Ok D /\ 0 <= o <= 364 /\
+    ((0 <= ry r /\ D = ry r * 365 + o) \/ (ry r < 0 /\ D = ry r * 365 - o)).
+Proof. exact is_date_days. Qed.
+Print Assumptions C13_date_days_total.
+
+(* for years >= 0 (in particular >= 1) the derived Ord agrees with the sign of days_until *)
+Theorem C13_ord_sign : forall r1 r2,
+  is_date r1 -> is_date r2 -> 0 <= ry r1 -> 0 <= ry r2 ->
+  exists n, days_until r1 r2 = Ok n /\ (raw_cmp r1 r2 = Lt <-> 0 < n) /\ (raw_cmp r1 r2 = Eq <-> n = 0)
+            /\ (raw_cmp r1 r2 = Gt <-> n < 0).
+Proof. exact ord_sign. Qed.
+Print Assumptions C13_ord_sign.
+
+(* non-vacuity: 1400.1.2 + 728 days = 1401.12.31 (the crate's doc example); a BC date moving further back;
+   and the documented breakage across year 0 really is outside the hypothesis (the model reproduces
+   that days_until (add_days d n) <> n there) *)
+Example C13_arith_nonvacuous :
+  is_date (mkraw 1400 4352) /\ date_days (mkraw 1400 4352) = Ok 511001 /\
+  add_days (mkraw 1400 4352) 728 = Ok (mkraw 1401 53120) /\
+  is_date (mkraw (-3) 4352) /\ date_days (mkraw (-3) 4352) = Ok (-1096) /\
+  add_days (mkraw (-3) 4352) (-400) = Ok (mkraw (-4) 8960) /\
+  (exists r', add_days (mkraw (-1) 4352) 100 = Ok r' /\ days_until (mkraw (-1) 4352) r' <> Ok 100).
+Proof.
+  split; [exists 1400, 1, 2; repeat split; vm_compute; reflexivity|].
+  split; [vm_compute; reflexivity|]. split; [vm_compute; reflexivity|].
+  split; [exists (-3), 1, 2; repeat split; vm_compute; reflexivity|].
+  split; [vm_compute; reflexivity|]. split; [vm_compute; reflexivity|].
+  eexists. split; [vm_compute; reflexivity|]. intros H; vm_compute in H; inversion H.
+Qed.
+
+(* util::fast_digit_parse, bit-exact over u64: for ANY eight bytes (little-endian word) the result is
+   Some (decimal value, first byte most significant) iff all eight are ASCII digits, else None.
+   dec_val l = fold_left (fun acc b => 10*acc + (b-48)) l 0. *)
+Theorem C13_fast_digit_parse_spec : forall b0 b1 b2 b3 b4 b5 b6 b7,
+  wfl [b0; b1; b2; b3; b4; b5; b6; b7] ->
+  fast_digit_parse (le_u64 [b0; b1; b2; b3; b4; b5; b6; b7]) =
+  if forallb is_digit [b0; b1; b2; b3; b4; b5; b6; b7]
+  then Some (dec_val [b0; b1; b2; b3; b4; b5; b6; b7]) else None.
+Proof. exact fast_digit_parse_spec. Qed.
+Print Assumptions C13_fast_digit_parse_spec.
+
+Example C13_fdp_nonvacuous :
+  wfl [49; 52; 52; 52; 49; 49; 49; 49]%N /\
+  fast_digit_parse (le_u64 [49; 52; 52; 52; 49; 49; 49; 49]%N) = Some 14441111%N /\
+  fast_digit_parse (le_u64 [49; 52; 52; 52; 49; 58; 49; 49]%N) = None.
+Proof. split; [repeat constructor|exact fast_digit_parse_ex]. Qed.
+
+(* ---------------- decimal printing / parsing ---------------- *)
+(* Date.dec_N (the model of core::fmt's `{}` on an unsigned integer) prints the canonical decimal
+   numeral: digits only, value n (dacc 0 = Horner evaluation), no leading zero except "0" itself. *)
+Theorem C13_dec_N_canonical : forall n, (n < 10 ^ 40)%N ->
+  all_digits (dec_N n) = true /\ dacc 0 (dec_N n) = n /\
+  ((n < 10)%N /\ dec_N n = [(48 + n)%N] \/ (10 <= n)%N /\ exists c tl, dec_N n = c :: tl /\ c <> 48%N /\ tl <> []).
+Proof. exact dec_N_canonical. Qed.
+Print Assumptions C13_dec_N_canonical.
+
+(* ... hence its length is the number of decimal digits *)
+Theorem C13_dec_N_length : forall n, (n < 10 ^ 40)%N ->
+  (n < 10 ^ N.of_nat (length (dec_N n)))%N /\ ((10 <= n)%N -> (10 ^ N.of_nat (length (dec_N n) - 1) <= n)%N).
+Proof. intros n Hn. exact (canonical_length n (dec_N n) (dec_N_canonical n Hn)). Qed.
+Print Assumptions C13_dec_N_length.
+
+(* scalar::to_i64_t reads back what `{}` / `{:0w}` printed (any width w, sign included), and stops
+   exactly at the first non-digit: |z| < 2^63, rest not starting with a digit *)
+Theorem C13_to_i64_t_fmt_int : forall w z rest,
+  Z.abs z < 2 ^ 63 -> stops rest = true -> to_i64_t (fmt_int w z ++ rest) = Ok (z, rest).
+Proof. exact to_i64_t_fmt_int. Qed.
+Print Assumptions C13_to_i64_t_fmt_int.
+
+Example C13_decimal_nonvacuous :
+  dec_N 0 = [48]%N /\ dec_N 1444 = [49; 52; 52; 52]%N /\ fmt_int 2 7 = [48; 55]%N /\ fmt_int 4 (-3) = [45; 48; 48; 51]%N /\
+  to_i64_t (fmt_int 0 (-32768) ++ [46; 49]%N) = Ok (-32768, [46; 49]%N).
+Proof. exact dec_examples. Qed.
+
+(* ---------------- text parsers: totality ---------------- *)
+(* none of the text parsers reaches a panic site, on any byte string (Date::_parse: well-formed bytes) *)
+Theorem C13_parse_total : forall s,
+  is_crash (x_parse s) = false /\ is_crash (datehour_parse s) = false /\ is_crash (uniform_parse s) = false /\
+  is_crash (raw_parse s) = false /\ (wfl s -> is_crash (date_parse s) = false).
+Proof.
+  intros s. destruct (parse_nocrash s) as (_ & H2 & H3 & H4).
+  repeat split; auto using x_parse_nocrash, date_parse_nocrash.
+Qed.
+Print Assumptions C13_parse_total.
+
+(* ---------------- fast paths = component-wise parsing ---------------- *)
+(* Date::_parse (three digit-packed slice patterns, the len = 8 mask trick, SWAR digit parser) returns
+   exactly what component-wise parsing (`fallback`) returns, on EVERY byte string, except that strings
+   matching no pattern, of length <> 8, and (shorter than 5 or longer than 12 or not starting with '-'
+   or a digit) are rejected up front (date_guard, DateFast.v).  The fast paths never invent, change or
+   lose a result. *)
+Theorem C13_fast_eq_component : forall s, wfl s ->
+  date_parse s = if date_guard s then Ok None else date_fallback s.
+Proof. exact date_parse_fallback. Qed.
+Print Assumptions C13_fast_eq_component.
+
+Theorem C13_fast_sound : forall s r, wfl s -> date_parse s = Ok (Some r) -> date_fallback s = Ok (Some r).
+Proof. exact date_parse_sound. Qed.
+Print Assumptions C13_fast_sound.
+
+Theorem C13_fast_complete : forall s,
+  wfl s -> (5 <= length s <= 12)%nat -> first_ok s = true -> date_parse s = date_fallback s.
+Proof. exact date_parse_complete. Qed.
+Print Assumptions C13_fast_complete.
+
+(* non-vacuity: the len = 8 fast path is really taken by "1444.1.1" (and the model uses the constants
+   of date.rs: DateFast.date_parse_is_alt checks that by conversion) *)
+Example C13_fast_nonvacuous :
+  exists s r, length s = 8%nat /\
+    (N.land (le_u64 s) date8_sep_mask =? date8_sep_dots)%N = true /\
+    date_fast_parse_u64 (N.lor (N.land (le_u64 s) date8_keep_mask) date8_zero_fill) = Some (Ok (Some r)) /\
+    date_parse s = Ok (Some r).
+Proof. exact date8_fast_path_taken. Qed.
+
+(* ---------------- format -> parse ---------------- *)
+(* every valid Date, rendered in game format (short "Y.M.D" or zero-padded "Y.MM.DD"), parses back *)
+Theorem C13_fmt_parse_date : forall y m d,
+  in_i16 y = true -> valid_md m d = true ->
+  exists r, date_from_ymd_opt y m d = Ok (Some r) /\
+            date_parse (game_fmt false r) = Ok (Some r) /\ date_parse (game_fmt true r) = Ok (Some r).
+Proof. exact fmt_parse_date. Qed.
+Print Assumptions C13_fmt_parse_date.
+
+(* DateHour (hour 1..24): short format always; zero-padded only for hours >= 10, because the parser
+   rejects a leading '0' in the hour ("1936.01.02.05" is not read back -- DotWide is only produced by the
+   crate for UniformDate, which has no hour; see DateFmt.fmt_examples) *)
+Theorem C13_fmt_parse_datehour : forall y m d h,
+  in_i16 y = true -> valid_md m d = true -> 1 <= h <= 24 ->
+  exists r, datehour_from_ymdh_opt y m d h = Ok (Some r) /\
+            datehour_parse (game_fmt false r) = Ok (Some r) /\
+            (10 <= h -> datehour_parse (game_fmt true r) = Ok (Some r)).
+Proof. exact fmt_parse_datehour. Qed.
+Print Assumptions C13_fmt_parse_datehour.
+
+(* UniformDate (12 x 30 days): the crate renders it zero-padded; both renderings parse back *)
+Theorem C13_fmt_parse_uniform : forall y m d,
+  in_i16 y = true -> 1 <= m <= 12 -> 1 <= d <= 30 ->
+  exists r, uniform_from_ymd_opt y m d = Some r /\
+            uniform_parse (game_fmt true r) = Ok (Some r) /\ uniform_parse (game_fmt false r) = Ok (Some r).
+Proof. exact fmt_parse_uniform. Qed.
+Print Assumptions C13_fmt_parse_uniform.
+
+(* RawDate::parse reads back both renderings of any raw date with in-range fields
+   (wide_ok: zero-padded only when there is no hour or the hour is >= 10) *)
+Theorem C13_fmt_parse_raw : forall y m d h wide,
+  in_i16 y = true -> 1 <= m <= 12 -> 1 <= d <= 31 -> 0 <= h <= 24 -> wide_ok wide h = true ->
+  exists r, raw_from_ymdh_opt y m d h = Some r /\ raw_parse (game_fmt wide r) = Ok (Some r).
+Proof. exact fmt_parse_raw. Qed.
+Print Assumptions C13_fmt_parse_raw.
+
+(* the ISO-8601 rendering shows the same components: reading its numerals back with to_i64_t gives
+   year, month, day, and (after 'T') the hour as 0..23 *)
+Theorem C13_iso_components : forall r y m d h,
+  has_fields r y m d h -> in_i16 y = true -> 1 <= m <= 12 -> 1 <= d <= 31 -> 0 <= h <= 24 ->
+  exists r1 r2 T,
+    to_i64_t (iso_fmt r) = Ok (y, DASH :: r1) /\ to_i64_t r1 = Ok (m, DASH :: r2) /\ to_i64_t r2 = Ok (d, T) /\
+    ((h = 0 /\ T = []) \/ (1 <= h /\ exists T', T = 84%N :: T' /\ to_i64_t T' = Ok (h - 1, []))).
+Proof. exact iso_components. Qed.
+Print Assumptions C13_iso_components.
+
+Example C13_fmt_nonvacuous :
+  game_fmt false (mkraw 1444 (11 * 4096 + 11 * 128)) = [49; 52; 52; 52; 46; 49; 49; 46; 49; 49]%N /\
+  game_fmt true (mkraw (-17) (1 * 4096 + 2 * 128)) = [45; 49; 55; 46; 48; 49; 46; 48; 50]%N /\
+  game_fmt false (mkraw 1936 (1 * 4096 + 2 * 128 + 12 * 4)) = [49; 57; 51; 54; 46; 49; 46; 50; 46; 49; 50]%N /\
+  datehour_parse (game_fmt true (mkraw 1936 (1 * 4096 + 2 * 128 + 5 * 4))) = Ok None.
+Proof. exact fmt_examples. Qed.
+
+(* ---------------- the accepted language ---------------- *)
+(* ExpandedRawDate::parse accepts EXACTLY (iff):
+     - a plain integer (the whole string is consumed by to_i64_t) that fits i32 and that
+       from_binary accepts  [binary_text: the documented numeric form], or
+     - ys "." M "." D [ "." H ]  where ys is the year numeral as to_i64_t reads it (digits, or a sign
+       '+'/'-' followed by digits; value in i16), M and D are one- or two-digit numerals, H a one- or
+       two-digit numeral not starting with '0', and nothing follows  [ymdh_text, DateLang.v].
+   The components of the result are the values of those numerals (hour 0 = absent). *)
+Theorem C13_parse_lang : forall s x,
+  x_parse s = Ok (Some x) <->
+  (binary_text s x \/ (in_i16 (xy x) = true /\ ymdh_text s (xy x) (xm x) (xd x) (xh x))).
+Proof. exact x_parse_lang. Qed.
+Print Assumptions C13_parse_lang.
+
+(* Date::parse: whatever it accepts is Y.M.D (no hour) or the numeric form, with a day the calendar has *)
+Theorem C13_date_lang : forall s r, wfl s -> date_parse s = Ok (Some r) ->
+  exists y m d, in_i16 y = true /\ valid_md m d = true /\ date_from_ymd_opt y m d = Ok (Some r) /\
+    (ymdh_text s y m d 0 \/ binary_text s (mkx y m d 0)).
+Proof. exact date_lang. Qed.
+Print Assumptions C13_date_lang.
+
+Theorem C13_date_lang_complete : forall s y m d,
+  wfl s -> (5 <= length s <= 12)%nat -> first_ok s = true ->
+  in_i16 y = true -> valid_md m d = true -> ymdh_text s y m d 0 ->
+  exists r, date_from_ymd_opt y m d = Ok (Some r) /\ date_parse s = Ok (Some r).
+Proof. exact date_lang_complete. Qed.
+Print Assumptions C13_date_lang_complete.
+
+(* DateHour::parse: Y.M.D.H with a calendar day and hour 1..24 (or the numeric form) *)
+Theorem C13_datehour_lang : forall s r, datehour_parse s = Ok (Some r) ->
+  exists y m d h, in_i16 y = true /\ valid_md m d = true /\ 1 <= h <= 24 /\
+    datehour_from_ymdh_opt y m d h = Ok (Some r) /\
+    (ymdh_text s y m d h \/ binary_text s (mkx y m d h)).
+Proof. exact datehour_lang. Qed.
+Print Assumptions C13_datehour_lang.
+
+Theorem C13_datehour_lang_complete : forall s y m d h,
+  in_i16 y = true -> valid_md m d = true -> 1 <= h <= 24 -> ymdh_text s y m d h ->
+  exists r, datehour_from_ymdh_opt y m d h = Ok (Some r) /\ datehour_parse s = Ok (Some r).
+Proof. exact datehour_lang_complete. Qed.
+Print Assumptions C13_datehour_lang_complete.
+
+(* UniformDate::parse: Y.M.D with month 1..12 and day 1..30 (or the numeric form) *)
+Theorem C13_uniform_lang : forall s r, uniform_parse s = Ok (Some r) ->
+  exists y m d, in_i16 y = true /\ 1 <= m <= 12 /\ 1 <= d <= 30 /\ uniform_from_ymd_opt y m d = Some r /\
+    (ymdh_text s y m d 0 \/ binary_text s (mkx y m d 0)).
+Proof. exact uniform_lang. Qed.
+Print Assumptions C13_uniform_lang.
+
+Theorem C13_uniform_lang_complete : forall s y m d,
+  in_i16 y = true -> 1 <= m <= 12 -> 1 <= d <= 30 -> ymdh_text s y m d 0 ->
+  exists r, uniform_from_ymd_opt y m d = Some r /\ uniform_parse s = Ok (Some r).
+Proof. exact uniform_lang_complete. Qed.
+Print Assumptions C13_uniform_lang_complete.
+
+(* the rejections named in the property, as instances; and a FINDING the model reproduces:
+   DateHour::parse of the numeric form does not shift the 0-based binary hour (from_binary does) *)
+Example C13_lang_nonvacuous :
+  date_parse [49; 52; 52; 52; 46; 50; 46; 51; 48]%N = Ok None /\
+  date_parse [49; 52; 52; 52; 46; 49; 51; 46; 49]%N = Ok None /\
+  date_parse [49; 52; 52; 52; 46; 48; 46; 49]%N = Ok None /\
+  datehour_parse [49; 46; 49; 46; 49; 46; 50; 53]%N = Ok None /\
+  datehour_parse [49; 46; 49; 46; 49; 46; 48]%N = Ok None /\
+  date_parse [49; 52; 52; 52; 46; 49; 46; 49; 120]%N = Ok None /\
+  uniform_parse [49; 46; 49; 46; 51; 49]%N = Ok None.
+Proof. exact lang_rejects. Qed.
+
+Example C13_datehour_text_binary_mismatch :
+  datehour_parse [52; 51; 56; 48; 56; 55; 54; 49]%N = Ok (Some (mkraw 1 (1 * 4096 + 1 * 128 + 1 * 4))) /\
+  datehour_from_binary 43808761 = Ok (Some (mkraw 1 (1 * 4096 + 1 * 128 + 2 * 4))) /\
+  datehour_parse [52; 51; 56; 48; 56; 55; 54; 48]%N = Ok None /\
+  datehour_from_binary 43808760 = Ok (Some (mkraw 1 (1 * 4096 + 1 * 128 + 1 * 4))).
+Proof. exact datehour_text_binary_mismatch. Qed.
